@@ -669,6 +669,7 @@ class Session:
         self.layout = layout
         self.errors = {}
         self.foreign = None  # another party's project: operands taken from it must be refused
+        self.root = None  # the top-level container this (sub)project is saved with; None: the project itself
 
     # live sets
     def mods(self):
@@ -782,6 +783,115 @@ class Session:
             elif what == "bad_constructor_kw":
                 cls = SIMPLE_TYPES[(v >> 4) % len(SIMPLE_TYPES)]
                 p.new_module(cls, **{("no_such_controller", "volume", "volume")[(v >> 12) % 3]: ("x" * 3, object(), -10 ** 9)[(v >> 16) % 3]})
+            elif what in ("aborted_save_sweep", "abandoned_writer_sweep"):
+                # fault enumeration inside a history: the save of the top-level container is cut short at EVERY
+                # write index (resp. its chunks() generator abandoned after every chunk), one attempt after the other
+                top = self.root if self.root is not None else p
+                n_chunks = sum(1 for _ in top.chunks())
+                if what == "abandoned_writer_sweep":
+                    step = max(1, n_chunks // 64)
+                    # from the last chunk down to the first: what an attempt cut at chunk i leaves behind is then
+                    # followed only by attempts that stop before reaching that point again
+                    for cut in reversed(range(0, n_chunks, step)):
+                        gen = top.chunks()
+                        for _ in range(cut + 1):
+                            if next(gen, None) is None:
+                                break
+                        if (v >> 3) & 1:
+                            gen.close()
+                        del gen
+                    return "bad:abandoned_writer_sweep:%d" % n_chunks
+                n_writes = 3 * n_chunks
+                step = max(1, n_writes // 64)
+                kinds_ = ("write_eio", "write_enospc", "write_cancel", "write_short")
+                done = 0
+                for at in reversed(range((v >> 5) % step, n_writes, step)):
+                    ctx = Ctx([{"kind": kinds_[(at + (v >> 9)) % 3], "at": at}])
+                    out = SimFile(ctx, 0, b"", "arg", "w")
+                    ctx.streams.append(out)
+                    try:
+                        top.write_to(out)
+                    except (KeyboardInterrupt, SystemExit, HarnessTimeout):
+                        raise
+                    except BaseException as e:
+                        if not ctx.fired and not env.raised_in_rv(e):
+                            raise
+                    done += 1
+                return "bad:aborted_save_sweep:%d" % done
+            elif what == "synth_export_aborted":
+                # the module is exported as a .sunsynth while it stays attached: Synth(module).write_to(stream)
+                # hits a write fault, or Synth(module).chunks() is abandoned half way
+                if type(m).__name__ == "Output":
+                    return "bad:skip"
+                syn = Synth(m)
+                n_chunks = sum(1 for _ in syn.chunks())
+                cut = op.get("at", 0) % max(1, n_chunks)
+                if (v >> 3) & 1:
+                    gen = syn.chunks()
+                    for _ in range(cut + 1):
+                        if next(gen, None) is None:
+                            break
+                    if (v >> 4) & 1:
+                        gen.close()
+                    del gen
+                    return "bad:synth_export_abandoned"
+                ctx = Ctx([{"kind": ("write_eio", "write_enospc", "write_cancel")[(v >> 5) % 3], "at": (op.get("at", 0) * 3 + (v >> 7) % 3) % max(1, 3 * n_chunks)}])
+                injected = True
+                out = SimFile(ctx, 0, b"", "arg", "w")
+                ctx.streams.append(out)
+                syn.write_to(out)
+            elif what == "unencodable_save":
+                # a plain attribute takes a value that is accepted on assignment but does not fit its binary
+                # slot; the save of the top-level container is refused; the caller puts the old value back
+                top = self.root if self.root is not None else p
+                targets = [(m, "x", 2 ** 40), (m, "y", -(2 ** 40)), (p, "initial_bpm", -1), (p, "global_volume", 2 ** 33), (m, "scale", -1)]
+                if isinstance(m, Sampler):
+                    for smp in m.samples:
+                        if smp is not None:
+                            targets += [(smp, "finetune", 1000), (smp, "relative_note", -1000), (smp, "volume", -5)] * 2
+                            break
+                    targets += [(m.volume_envelope, "sustain_point", 70000)]
+                obj, attr, val = targets[(v >> 4) % len(targets)]
+                if not hasattr(obj, attr):
+                    return "bad:skip"
+                old_val = getattr(obj, attr)
+                setattr(obj, attr, val)
+                try:
+                    top.read()
+                    res = "accepted"
+                except (KeyboardInterrupt, SystemExit, HarnessTimeout):
+                    raise
+                except BaseException as e:
+                    res = type(e).__name__
+                finally:
+                    setattr(obj, attr, old_val)
+                return "bad:unencodable_save:%s:%s" % (attr, res)
+            elif what == "generator_raises":
+                ps = self.real_pats()
+                if not ps:
+                    return "bad:skip"
+                pat = ps[(v >> 4) % len(ps)]
+                other = ps[(v >> 9) % len(ps)]
+                # always gives up before the last cell: a COMPLETED edit that places one Note object in two
+                # grids is the caller's mistake, not an aftermath
+                at = op.get("at", 0) % max(1, pat.lines * pat.tracks)
+
+                class _Boom2(Exception):
+                    pass
+
+                def gen(pattern, new):
+                    k_ = 0
+                    for line in range(pattern.lines):
+                        for track in range(pattern.tracks):
+                            if k_ >= at:
+                                raise _Boom2("user generator gives up")
+                            # hands over LIVE notes (of this or of another pattern of the project), as a rotation would
+                            src = other if (v >> 14) & 1 else pattern
+                            yield line, track, src.data[(line + 1) % src.lines][track % src.tracks]
+                            k_ += 1
+
+                injected = True
+                pat.set_via_gen(gen)
             elif what == "attach_twice_other":
                 # a module of THIS project offered to the foreign project (refused), then used normally here
                 f = self._foreign_project()
@@ -1031,6 +1141,7 @@ class Session:
                 return "skip"
             mm = ms[op["m"] % len(ms)]
             sub = Session(mm.project, self.depth + 1, self.layout)
+            sub.root = self.root if self.root is not None else self.project
             out = sub.apply(op["op"])
             for kk, vv in sub.errors.items():
                 self.errors[kk] = self.errors.get(kk, 0) + vv
@@ -1151,7 +1262,8 @@ def gen_link_op(r, foreign_p=0.0):
     return op
 
 
-BAD_KINDS = ("ctl_out_of_range", "ctl_wrong_type", "attach_foreign", "connect_foreign", "callable_raises", "aborted_save", "abandoned_writer", "bad_constructor_kw", "attach_twice_other")
+BAD_KINDS = ("ctl_out_of_range", "ctl_wrong_type", "attach_foreign", "connect_foreign", "callable_raises", "aborted_save", "abandoned_writer", "bad_constructor_kw", "attach_twice_other",
+             "aborted_save_sweep", "abandoned_writer_sweep", "synth_export_aborted", "unencodable_save", "aborted_save_sweep", "unencodable_save", "generator_raises")
 N_BAD = len(BAD_KINDS)
 WEIGHTS_V1 = {"mod": 3, "set": 10, "pset": 2, "pat": 1.5, "tset": 1, "cell": 3, "link": 4, "embed": 1.5}  # frozen: layout-1 gen specs
 WEIGHTS_V2 = {"mod": 3, "set": 10, "pset": 2, "pat": 1.5, "tset": 1, "cell": 3, "link": 4, "embed": 1.5, "modkw": 1.2, "clone_mod": 0.8, "udscn": 0.5, "twin": 0.4, "hubscn": 0.15}  # frozen: layout-2 gen specs
